@@ -865,6 +865,7 @@ def generate(repo):
     her, _ = load(repo, 'prysm/polynomials/hermite.py')
     lag, _ = load(repo, 'prysm/polynomials/laguerre.py')
     dic, _ = load(repo, 'prysm/polynomials/dickson.py')
+    qp8, _ = load(repo, 'prysm/polynomials/qpoly.py')
     for (mod, rel, py, lean, ks, tf, xb, rec) in [
             (jac, 'jacobi.py', 'jacobi_seq', 'jacobiSeq', ['alpha', 'beta', 'x'], {'recurrence_abc': ('Generated.C07.abc', 3)},
              '[DecidableEq K] ', f'{M}.jacobiRec alpha beta x'),
@@ -874,9 +875,13 @@ def generate(repo):
             (her, 'hermite.py', 'hermite_H_der_seq', 'hermiteHDerSeq', ['x'], None, '', f'{M}.hDerRec x'),
             (lag, 'laguerre.py', 'laguerre_seq', 'laguerreSeq', ['alpha', 'x'], None, '', f'{M}.lagRec alpha x'),
             (dic, 'dickson.py', 'dickson1_seq', 'dickson1Seq', ['alpha', 'x'], None, '', f'{M}.dickRec ({M7}.nat 2) alpha x'),
-            (dic, 'dickson.py', 'dickson2_seq', 'dickson2Seq', ['alpha', 'x'], None, '', f'{M}.dickRec ({M7}.nat 1) alpha x')]:
+            (dic, 'dickson.py', 'dickson2_seq', 'dickson2Seq', ['alpha', 'x'], None, '', f'{M}.dickRec ({M7}.nat 1) alpha x'),
+            (qp8, 'qpoly.py', 'Qbfs_seq', 'qbfsSeq', ['x'], None, '(sqrt : K → K) ', f'{M}.qbfsRec sqrt x')]:
         def build(mod=mod, py=py, lean=lean, ks=ks, tf=tf, xb=xb):
-            return translate_seq(get_def_inlined(mod, py), lean, ks, tuple_funcs=tf, extra_binders=xb)
+            kw = None
+            if py == 'Qbfs_seq':      # the auxiliary f, g, h are read as the model's functions (their bodies are C07 items), sqrt is a parameter
+                kw = {'intfuncs': {'g_qbfs': f'{M7}.qbfsGi sqrt', 'h_qbfs': f'{M7}.qbfsHi sqrt', 'f_qbfs': f'{M7}.qbfsFi sqrt'}, 'sqrt': 'sqrt'}
+            return translate_seq(get_def_inlined(mod, py), lean, ks, tuple_funcs=tf, extra_binders=xb, tr_kwargs=kw)
         g.item(py, f'prysm/polynomials/{rel}:{py}', (lambda mod=mod, py=py: get_def(mod, py)), build,
                f'def {lean} {xb}(ns : List Nat) ({" ".join(ks)} : K) : Option (List K) := {M}.sweep ({rec}) ns')
 
